@@ -58,27 +58,39 @@ func runMulti(c MultiCase, st *kit.Stats, h multiHooks, flags map[string]int) er
 	defer emu.Stop()
 	srv := model.NewServer()
 	conns := make([]*kit.Conn, c.Conns)
-	sess := make([]*model.Session, c.Conns)
-	for i := range conns {
-		conns[i] = emu.Dial()
-		sess[i] = model.NewSession(i)
-	}
+	slots := make([]*model.Session, c.Conns)
+	var sess []*model.Session // sessions of the connections opened so far
 	for i, step := range c.Steps {
 		if step.Conn < 0 || step.Conn >= c.Conns {
 			continue
 		}
 		argv := step.Argv.Strs()
-		se := sess[step.Conn]
+		if conns[step.Conn] == nil {
+			// a connection is opened when the program first uses it
+			conns[step.Conn] = emu.Dial()
+			slots[step.Conn] = model.NewSession(step.Conn)
+			sess = append(sess, slots[step.Conn])
+		}
+		se := slots[step.Conn]
 		if h.skip != nil {
 			if id := h.skip(step, srv, sess); id != "" {
 				st.Exclude(id)
 				continue
 			}
 		}
+		if upper(argv[0]) == "EXEC" && kit.KF("KF-C10-ABA") && srv.AbortOnlyByVanishedKeys(se) {
+			// known finding: the step is left out (the connection stays inside MULTI on both sides)
+			st.Exclude("KF-C10-ABA")
+			continue
+		}
 		n := nowMs()
 		if srv.WouldBeAny(sess, se, argv, model.Time{Lo: n, Hi: n}) {
 			st.Class("dont-care-skipped")
 			continue
+		}
+		if upper(argv[0]) == "HELLO" && len(argv) == 2 && (argv[1] == "2" || argv[1] == "3") {
+			// the reply to HELLO already comes in the new protocol
+			conns[step.Conn].Proto = int(argv[1][0] - '0')
 		}
 		t0 := nowMs()
 		got, err := conns[step.Conn].Do(argv...)
@@ -104,10 +116,10 @@ func runMulti(c MultiCase, st *kit.Stats, h multiHooks, flags map[string]int) er
 			continue
 		}
 		for ci, conn := range conns {
-			if !h.dumpAll && ci != step.Conn {
+			if conn == nil || (!h.dumpAll && ci != step.Conn) {
 				continue
 			}
-			if sess[ci].InMulti {
+			if slots[ci].InMulti {
 				continue
 			}
 			t0 = nowMs()
@@ -116,8 +128,8 @@ func runMulti(c MultiCase, st *kit.Stats, h multiHooks, flags map[string]int) er
 			if err != nil {
 				return fmt.Errorf("after step %d c%d %s: state dump through c%d failed: %v", i, step.Conn, step.Argv, ci, err)
 			}
-			if err := compareDump(d, srv.DBs[sess[ci].DB], model.Time{Lo: t0, Hi: t1}); err != nil {
-				return fmt.Errorf("after step %d c%d %s (reply %s): database %d as seen by c%d: %v", i, step.Conn, step.Argv, got, sess[ci].DB, ci, err)
+			if err := compareDump(d, srv.DBs[slots[ci].DB], model.Time{Lo: t0, Hi: t1}); err != nil {
+				return fmt.Errorf("after step %d c%d %s (reply %s): database %d as seen by c%d: %v", i, step.Conn, step.Argv, got, slots[ci].DB, ci, err)
 			}
 		}
 	}
